@@ -34,7 +34,7 @@ OnlyIfAuthorized == executed => Required(shape) \subseteq grants
 (* sanity of the shape space itself *)
 WellFormed == /\ Required(shape) # {}
               /\ Len(shape.plants) <= MaxDepth
-              /\ \A i \in 1..Len(shape.plants) : shape.plants[i].form = "view" => i = Len(shape.plants)
+              /\ \A i \in 1..Len(shape.plants) : shape.plants[i].form \in TerminalForms => i = Len(shape.plants)
 (* holding everything always suffices in the design (no statement is unusable) *)
 FullSuffices == (phase = "done" /\ grants = AllGrants) => executed
 =============================================================================
